@@ -433,41 +433,68 @@ def boundary_points(b, rng, per_step=4):
 
 
 # ------------------------------------------------------------------ flow factories, both orientations
-def flows(ctx, dims=(1, 2, 3), conds=(None, 2), inverts=(True, False), bnaf=True, layers=2, scale=0.4):
-    """Yields (name, dim, cond_dim, invert, flow, tol, key_int) for every factory, parameters perturbed away from
-    initialisation (harness.flowcases.perturb).  tol = relative tolerance for path-consistency identities."""
-    from harness import flowcases as fc
+FACTORIES = ("maf-affine", "maf-rqs", "planar", "coupling", "triangular-spline", "bnaf")
+TOL = {"bnaf": 2e-4}
 
+
+def build_flow(name, dim, cond, inv, kint, layers=2):
     L = lv.lib()
     jr, B = L["jr"], L["B"]
     import flowjax.flows as F
     from flowjax.distributions import StandardNormal
 
+    base = StandardNormal((dim,))
+    k = jr.PRNGKey(kint)
+    if name == "maf-affine":
+        return F.masked_autoregressive_flow(k, base_dist=base, cond_dim=cond, flow_layers=layers, nn_width=8, invert=inv)
+    if name == "maf-rqs":
+        return F.masked_autoregressive_flow(k, base_dist=base, cond_dim=cond, flow_layers=layers, nn_width=8, invert=inv,
+                                            transformer=B.RationalQuadraticSpline(knots=4, interval=3))
+    if name == "planar":
+        return F.planar_flow(k, base_dist=base, cond_dim=cond, flow_layers=layers, negative_slope=0.2, invert=inv,
+                             **({} if cond is None else dict(width_size=8, depth=1)))
+    if name == "coupling":
+        return F.coupling_flow(k, base_dist=base, cond_dim=cond, flow_layers=layers, nn_width=8, invert=inv)
+    if name == "triangular-spline":
+        return F.triangular_spline_flow(k, base_dist=base, cond_dim=cond, flow_layers=layers, knots=4, invert=inv)
+    if name == "bnaf":
+        return F.block_neural_autoregressive_flow(k, base_dist=base, cond_dim=cond, flow_layers=1, nn_block_dim=3, invert=inv)
+    raise ValueError(name)
+
+
+def all_configs(names=FACTORIES, dims=(1, 2, 3), conds=(None, 2), inverts=(True, False)):
+    return [(n, d, c, i) for n in names for d in dims for c in conds for i in inverts if not (n == "coupling" and d == 1)]
+
+
+def quick_configs(seed, names=FACTORIES, per=2):
+    """A stratified subset for the quick tier: per factory `per` configurations, both orientations and conditional /
+    unconditional spread over the factories, dims rotating with the seed."""
+    out = []
+    for j, n in enumerate(names):
+        for r in range(per):
+            dim = 1 + (j + r + seed) % 3
+            if n == "coupling" and dim == 1:
+                dim = 2
+            inv = (r + j) % 2 == 0
+            cond = 2 if (r + (j // 2)) % 2 == 1 else None
+            out.append((n, dim, cond, inv))
+    return out
+
+
+def flows(ctx, configs, scale=0.4):
+    """Yields (name, dim, cond_dim, invert, flow, tol, key_int) with parameters perturbed away from initialisation
+    (harness.flowcases.perturb).  tol = relative tolerance for path-consistency identities."""
+    from harness import flowcases as fc
+
     rng = ctx.rng
-    for dim in dims:
-        for cond in conds:
-            base = StandardNormal((dim,))
-            mk = [
-                ("maf-affine", lambda k, inv: F.masked_autoregressive_flow(k, base_dist=base, cond_dim=cond, flow_layers=layers, nn_width=8, invert=inv), 1e-7),
-                ("maf-rqs", lambda k, inv: F.masked_autoregressive_flow(k, base_dist=base, cond_dim=cond, flow_layers=layers, nn_width=8, invert=inv,
-                                                                       transformer=B.RationalQuadraticSpline(knots=4, interval=3)), 1e-7),
-                ("planar", lambda k, inv: F.planar_flow(k, base_dist=base, cond_dim=cond, flow_layers=layers, negative_slope=0.2, invert=inv,
-                                                        **({} if cond is None else dict(width_size=8, depth=1))), 1e-7),
-                ("triangular-spline", lambda k, inv: F.triangular_spline_flow(k, base_dist=base, cond_dim=cond, flow_layers=layers, knots=4, invert=inv), 1e-7),
-            ]
-            if dim > 1:
-                mk.append(("coupling", lambda k, inv: F.coupling_flow(k, base_dist=base, cond_dim=cond, flow_layers=layers, nn_width=8, invert=inv), 1e-7))
-            if bnaf:
-                mk.append(("bnaf", lambda k, inv: F.block_neural_autoregressive_flow(k, base_dist=base, cond_dim=cond, flow_layers=1, nn_block_dim=3, invert=inv), 2e-4))
-            for name, f, tol in mk:
-                for inv in inverts:
-                    kint = int(rng.integers(0, 2**31))
-                    try:
-                        flow = f(jr.PRNGKey(kint), inv)
-                    except Exception as e:  # not constructible in this environment: not a property violation
-                        ctx.notes.append(f"flow factory {name} dim={dim} cond={cond} invert={inv} not constructible here: {type(e).__name__}: {str(e)[:80]}")
-                        continue
-                    yield name, dim, cond, inv, fc.perturb(flow, rng, scale), tol, kint
+    for name, dim, cond, inv in configs:
+        kint = int(rng.integers(0, 2**31))
+        try:
+            flow = build_flow(name, dim, cond, inv, kint)
+        except Exception as e:  # not constructible in this environment: not a property violation
+            ctx.notes.append(f"flow factory {name} dim={dim} cond={cond} invert={inv} not constructible here: {type(e).__name__}: {str(e)[:80]}")
+            continue
+        yield name, dim, cond, inv, fc.perturb(flow, rng, scale), TOL.get(name, 1e-7), kint
 
 
 # ------------------------------------------------------------------ wall-clock guard
